@@ -12,7 +12,58 @@ var curT *testing.T
 // GenCrash generates the recording run of the crash profiles: a single writer
 // (optionally more, with disjoint key ownership), small thresholds so that
 // commits, rotations, flushes, compactions and Close all occur.
+// genCloseWindow: a few hot keys overwritten again and again, memtables that
+// hold two or three transactions, a flusher that is starved so that frozen
+// memtables queue up, and Close/Open cycles in between: the states in which
+// the active memtable is newer than what is queued when Close (or a crash)
+// arrives.
+func genCloseWindow(seed uint64, prop string) *Case {
+	r := simrt.NewSplitMix(seed ^ 0xc105e)
+	c := &Case{Prop: prop, Profile: "crash", Seed: seed, Final: false}
+	c.Sim = genSim(&r)
+	if r.Intn(3) > 0 {
+		c.Sim.Strategy = simrt.StratStarve
+	}
+	c.Keys = pickKeys(&r, 2+r.Intn(2))
+	cfg := genCfg(&r, true)
+	cfg.MemtableByteThreshold = []int{70, 100, 140, 200}[r.Intn(4)]
+	cfg.ImmutableBuffer = []int{1, 2, 10}[r.Intn(3)]
+	c.Configs = []Cfg{cfg}
+	vg := &valGen{client: 0}
+	var acts []Action
+	n := 12 + r.Intn(28)
+	for i := 0; i < n; i++ {
+		t := &TxnProg{ID: i, Mode: "update", End: "commit"}
+		for j := 0; j < 1+r.Intn(2); j++ {
+			id, _ := vg.next(&r, i)
+			k := c.Keys[r.Intn(len(c.Keys))]
+			if r.Intn(8) == 0 {
+				t.Ops = append(t.Ops, Op{K: "del", Key: k})
+			} else {
+				t.Ops = append(t.Ops, Op{K: "set", Key: k, Val: id, Pad: r.Intn(12)})
+			}
+		}
+		acts = append(acts, Action{Kind: "txn", Txn: t})
+		if r.Intn(10) == 0 {
+			nc := nextCfg(&r, cfg, true)
+			nc.MemtableByteThreshold = []int{70, 100, 140, 200}[r.Intn(4)]
+			nc.ImmutableBuffer = []int{1, 2, 10}[r.Intn(3)]
+			c.Configs = append(c.Configs, nc)
+			acts = append(acts, Action{Kind: "restart", Cfg: len(c.Configs) - 1, Gap: restartGap(&r)})
+		}
+	}
+	c.Clients = []ClientProg{{Actions: acts}}
+	c.Crash = &CrashPlan{Depth: 1, PostTxns: 1 + r.Intn(3)}
+	if prop == "C14" {
+		c.Crash.TailCuts = true
+	}
+	return c
+}
+
 func GenCrash(seed uint64, prop string, tier string) *Case {
+	if seed%4 == 1 {
+		return genCloseWindow(seed, prop)
+	}
 	p := SeqParams{MinTxns: 4, MaxTxns: 40, Small: true, Restarts: true}
 	c := GenSeq(seed, prop, p)
 	c.Profile = "crash"
@@ -191,5 +242,13 @@ func init() {
 			Gen:   func(seed uint64, tier string) *Case { return GenCrash(seed, p, tier) },
 			Check: func(res *RunResult) *Eval { return checkCrash(res, p) },
 		}
+	}
+}
+
+func init() {
+	// development aid: only close-window cases
+	Specs["DEVCW"] = Spec{
+		Gen:   func(seed uint64, tier string) *Case { return genCloseWindow(seed, "C03") },
+		Check: func(res *RunResult) *Eval { return checkCrash(res, "C03") },
 	}
 }
